@@ -148,6 +148,10 @@ func fmtNodes(ns []*zset.SortedSetNode) string {
 }
 
 func fmtEntries(es nutsdb.Entries, off int) string {
+	if len(es) == 0 {
+		// "no live pairs": the RAM index modes answer with an error, the sparse mode with an empty list
+		return "err"
+	}
 	p := []string{"entries", strconv.Itoa(off)}
 	for _, e := range es {
 		if e == nil {
